@@ -115,7 +115,11 @@ impl AffineRepr for AffinePoint {
     }
 
     fn from_random_bytes(bytes: &[u8]) -> Option<Self> {
-        EdwardsAffine::from_random_bytes(bytes).map(|inner| AffinePoint { inner })
+        // The generic constructor returns an arbitrary curve point. Doubling
+        // maps it into the image of the decaf377 group (2E).
+        EdwardsAffine::from_random_bytes(bytes).map(|inner| AffinePoint {
+            inner: (inner + inner).into(),
+        })
     }
 
     fn mul_bigint(&self, other: impl AsRef<[u64]>) -> Self::Group {
